@@ -47,6 +47,25 @@ def rename_spec(spec, mapping, order=None):
         if order is not None:
             keys = list(reversed(keys))
         s['migration_rates'] = {mk(k): s['migration_rates'][k] for k in keys}
+    for fld in ('events', 'added_events'):
+        evs = []
+        for e in s.get(fld) or []:
+            e = dict(e)
+            for k_ in ('pop', 'source', 'dest', 'ancestral'):
+                if k_ in e:
+                    e[k_] = mp(e[k_])
+            if 'derived' in e:
+                e['derived'] = mp(e['derived']) if isinstance(e['derived'], str) else [mp(x) for x in e['derived']]
+            if 'pops' in e:
+                e['pops'] = [mp(x) for x in e['pops']]
+            if 'pop_sizes' in e and isinstance(e['pop_sizes'], dict):
+                e['pop_sizes'] = {mp(p): v for p, v in e['pop_sizes'].items()}
+            for k_ in ('rates', 'migration_rates'):
+                if isinstance(e.get(k_), dict):
+                    e[k_] = {mk(k): v for k, v in e[k_].items()}
+            evs.append(e)
+        if evs:
+            s[fld] = evs
     return s
 
 
